@@ -73,7 +73,10 @@ func (e *Engine) verifyFunc(f *ssa.Function, ct *Contract) *FnVC {
 	if len(ct.Requires) > 0 {
 		o := fv.oblige(funcKey(f)+"#cover:requires", "cover", nil, "true", "false", "requires is satisfiable (must be SAT)", f.Pos())
 		// a cover obligation is expected to FAIL (sat); do not assume it
+		last := fv.lines[len(fv.lines)-1]
 		fv.lines = fv.lines[:len(fv.lines)-1]
+		tl := fv.tagLines[last.tag]
+		fv.tagLines[last.tag] = tl[:len(tl)-1]
 		o.nlines = len(fv.lines)
 	}
 	if ct.Private != "" {
@@ -88,6 +91,9 @@ func (e *Engine) verifyFunc(f *ssa.Function, ct *Contract) *FnVC {
 	// frame
 	if ct.AssignsAny {
 		fv.frameAny = true
+		if len(ct.Except) > 0 {
+			fv.frame = ce.regions(ct.Except)
+		}
 	} else if len(ct.Assigns) > 0 {
 		fv.frame = ce.regions(ct.Assigns)
 	}
@@ -221,7 +227,7 @@ func (fv *FnVC) finishReturn(in *inst, r retInfo, suffix string) {
 		}
 	}
 	// frame: every location allocated before entry and outside assigns is unchanged
-	if !fv.frameAny {
+	if !fv.frameAny || len(fv.frame) > 0 {
 		frameProps := append([]string(nil), in.propsFor(nil)...)
 		for _, im := range fv.eng.refinedBy(f) {
 			if im.ct.AssignsSet && !im.ct.AssignsAny && len(im.ct.Assigns) == 0 {
@@ -232,9 +238,24 @@ func (fv *FnVC) finishReturn(in *inst, r retInfo, suffix string) {
 		for k := range st.heaps {
 			keys = append(keys, k)
 		}
+		if fv.frameAny {
+			for k := range fv.frame {
+				if _, ok := st.heaps[k]; !ok {
+					keys = append(keys, k)
+				}
+			}
+		}
 		sort.Strings(keys)
 		for _, k := range keys {
-			h := st.heaps[k]
+			if fv.frameAny && fv.frame[k] == nil {
+				continue // unconstrained heap under "assigns * except"
+			}
+			var h *Heap
+			if hh, ok := st.heaps[k]; ok {
+				h = hh
+			} else {
+				h = fv.heapOf(st, k, fv.frame[k].sort)
+			}
 			h0 := fv.heapOf(fv.entry, k, h.info.sort)
 			if h.term == h0.term {
 				continue
@@ -244,17 +265,12 @@ func (fv *FnVC) finishReturn(in *inst, r retInfo, suffix string) {
 			if fv.frame != nil && fv.frame[k] != nil {
 				inFrame = fv.frame[k].pred(sk)
 			}
-			var goal string
-			if st.epoch != 0 {
-				goal = "false" // all memory was havocked by an unknown call
-			} else {
-				goal = implies(and("(< (root "+sk+") A0)", not(inFrame)), eq(fv.loadRaw(h, sk), fv.loadRaw(h0, sk)))
-			}
+			goal := implies(and("(< (root "+sk+") A0)", not(inFrame)), eq(fv.loadRaw(h, sk), fv.loadRaw(h0, sk)))
 			fv.oblige(funcKey(f)+"#frame:"+frameKeyName(k)+suffix, "frame", frameProps, st.reach, goal,
 				"assigns: only declared locations of pre-existing objects change ("+k+")", pos)
 		}
-		if st.epoch != 0 && len(keys) == 0 {
-			fv.oblige(funcKey(f)+"#frame:all"+suffix, "frame", frameProps, st.reach, "false", "a call with unknown effects may write any memory", pos)
+		if st.dirty != "" && st.dirty != "false" && !fv.frameAny {
+			fv.oblige(funcKey(f)+"#frame:all"+suffix, "frame", frameProps, st.reach, not(st.dirty), "no call with unknown effects (it may write any memory) on a path to this return", pos)
 		}
 	}
 }
@@ -308,18 +324,33 @@ func (o *Obligation) query() string {
 	b.WriteString(preludeSorts)
 	b.WriteString(fv.eng.specText)
 	anc := fv.anc[o.tag]
-	for _, l := range fv.lines {
-		if l.tag == -1 {
-			b.WriteString(l.text)
-			b.WriteByte('\n')
-		}
+	for _, i := range fv.tagLines[-1] {
+		b.WriteString(fv.lines[i].text)
+		b.WriteByte('\n')
 	}
-	for i := 0; i < o.nlines; i++ {
-		l := fv.lines[i]
-		if l.tag != -1 && (anc[l.tag] || o.tag == -1) {
-			b.WriteString(l.text)
-			b.WriteByte('\n')
+	var idx []int
+	if o.tag == -1 {
+		for i := 0; i < o.nlines; i++ {
+			if fv.lines[i].tag != -1 {
+				idx = append(idx, i)
+			}
 		}
+	} else {
+		for t := range anc {
+			for _, i := range fv.tagLines[t] {
+				if i < o.nlines {
+					idx = append(idx, i)
+				}
+			}
+		}
+		sort.Ints(idx)
+	}
+	for _, i := range idx {
+		if o.exclude != nil && fv.lines[i].obl != nil && o.exclude[fv.lines[i].obl] {
+			continue
+		}
+		b.WriteString(fv.lines[i].text)
+		b.WriteByte('\n')
 	}
 	// global declarations made after this point may be referenced by terms
 	// above only if they were emitted before; facts about tags are global
